@@ -43,6 +43,10 @@ const STATUS_PACKAGE: &str = r#"{
 pub fn ts(t: u32) -> String {
     format!("2030-01-01T00:{:02}:{:02}.000Z", t / 60, t % 60)
 }
+/// The same clock, but before the wall clock (route `kml-past`).
+pub fn ts_in(past: bool, t: u32) -> String {
+    if past { format!("2020-01-01T00:{:02}:{:02}.000Z", t / 60, t % 60) } else { ts(t) }
+}
 fn ts_back(s: &str) -> u32 {
     let m: u32 = s.get(14..16).and_then(|x| x.parse().ok()).unwrap_or(99);
     let sec: u32 = s.get(17..19).and_then(|x| x.parse().ok()).unwrap_or(99);
@@ -122,12 +126,18 @@ struct CaseState {
     prop_of: HashMap<String, usize>,
     rows: Vec<AssertionRow>,
     ord_of: HashMap<String, usize>,
+    past: bool,
 }
 
 impl World {
     pub fn new(rt: tokio::runtime::Runtime) -> World {
         let inner = rt.block_on(Inner::new());
         World { rt, inner }
+    }
+
+    /// Drops the database and starts a fresh one (memory stays bounded over long runs).
+    pub fn recycle(&mut self) {
+        self.inner = self.rt.block_on(Inner::new());
     }
 
     /// One output line per op; a panic inside the code under test yields `panic` lines.
@@ -291,6 +301,35 @@ impl Inner {
                     }
                     "ok".into()
                 }
+                Op::Retract(i, t) => {
+                    // what RETRACT ASSERTION writes, with the instant chosen by the case
+                    if let Some(row) = cs.rows.get_mut(*i) {
+                        let at = ts(t.unwrap_or(0));
+                        row.status = "retracted".to_string();
+                        row.retracted_at = if t.is_some() { at.clone() } else { String::new() };
+                        let cx = WriteContext { at, ..self.wcx.clone() };
+                        self.nexus.store.update(&cx, row).await.expect("update assertion");
+                    }
+                    "ok".into()
+                }
+                Op::Supersede(i, j, t) => {
+                    // what SUPERSEDE ASSERTION writes: both rows change in one commit at one instant
+                    if *j < cs.rows.len() && i != j && *i < cs.rows.len() {
+                        let at = ts(t.unwrap_or(0));
+                        let cx = WriteContext { at: at.clone(), ..self.wcx.clone() };
+                        let old_id = ElementId::new(anda_kip::ElementKind::Assertion, cs.rows[*i]._id).to_string();
+                        let new_id = ElementId::new(anda_kip::ElementKind::Assertion, cs.rows[*j]._id).to_string();
+                        let old = &mut cs.rows[*i];
+                        old.status = "superseded".to_string();
+                        if !old.superseded_by.contains(&new_id) { old.superseded_by.push(new_id) }
+                        self.nexus.store.update(&cx, old).await.expect("update assertion");
+                        let new = &mut cs.rows[*j];
+                        if !new.supersedes.contains(&old_id) { new.supersedes.push(old_id) }
+                        if t.is_some() { new.asserted_at = at }
+                        self.nexus.store.update(&cx, new).await.expect("update assertion");
+                    }
+                    "ok".into()
+                }
                 Op::Project(t) => {
                     let pid = self.prop(&mut cs, *t).await;
                     let mut cx = Context::open(&self.nexus.store, DEFAULT_SPACE, None, None, &self.authority, &self.auth).await.expect("context");
@@ -322,7 +361,7 @@ impl Inner {
     fn fresh_case(&self) -> CaseState {
         CaseState {
             policy: Policy::baseline(), den: 10, now: 0, functional: false, subject_key: String::new(),
-            props: HashMap::new(), prop_of: HashMap::new(), rows: Vec::new(), ord_of: HashMap::new(),
+            props: HashMap::new(), prop_of: HashMap::new(), rows: Vec::new(), ord_of: HashMap::new(), past: false,
         }
     }
 
@@ -362,7 +401,8 @@ impl Inner {
         let mut assertion_ids: Vec<String> = Vec::new();
         'ops: for op in ops {
             let line: String = match op {
-                Op::Route(_) | Op::Reset => "ok".into(),
+                Op::Route(r) => { cs.past = r == "kml-past"; "ok".into() }
+                Op::Reset => "ok".into(),
                 Op::Settings { k, name, accept, material, modes } => {
                     let den = 10 * k;
                     cs.den = den;
@@ -413,8 +453,8 @@ impl Inner {
                     if r.conf >= 0 { fields.push_str(&format!(", confidence: {}", r.conf as f64 / cs.den as f64)) }
                     if r.from.is_some() || r.until.is_some() {
                         let mut vt = Vec::new();
-                        if let Some(f) = r.from { vt.push(format!("from: \"{}\"", ts(f))) }
-                        if let Some(u) = r.until { vt.push(format!("until: \"{}\"", ts(u))) }
+                        if let Some(f) = r.from { vt.push(format!("from: \"{}\"", ts_in(cs.past, f))) }
+                        if let Some(u) = r.until { vt.push(format!("until: \"{}\"", ts_in(cs.past, u))) }
                         fields.push_str(&format!(", valid_time: {{{}}}", vt.join(", ")));
                     }
                     let mut params = Map::new();
@@ -436,7 +476,11 @@ impl Inner {
                         Err(e) => format!("err:assert {e}"),
                     }
                 }
-                Op::Status(i, 'r') => match assertion_ids.get(*i) {
+                Op::Supersede(i, j, _) => match (assertion_ids.get(*i), assertion_ids.get(*j)) {
+                    (Some(a), Some(b)) if i != j => match exec(&self.nexus, "SUPERSEDE ASSERTION :a BY :b", json!({"a": a, "b": b})).await { Ok(_) => "ok".into(), Err(e) => format!("err:supersede {e}") },
+                    _ => "ok".into(),
+                },
+                Op::Status(i, 'r') | Op::Retract(i, _) => match assertion_ids.get(*i) {
                     Some(id) => match exec(&self.nexus, "RETRACT ASSERTION :a", json!({"a": id})).await { Ok(_) => "ok".into(), Err(e) => format!("err:retract {e}") },
                     None => "ok".into(),
                 },
@@ -445,7 +489,7 @@ impl Inner {
                         let _ = self.kml_slot(&mut cs, &format!("{tag}-lonely{t}"), false, &[*t]).await;
                     }
                     let Some(pid) = cs.props.get(t).copied() else { out.push("err:prop".into()); continue 'ops };
-                    let cmd = format!("FIND(?b) WHERE {{ ?b BELIEF (id: :p) }} FOR TIME \"{}\"{epistemic}", ts(cs.now));
+                    let cmd = format!("FIND(?b) WHERE {{ ?b BELIEF (id: :p) }} FOR TIME \"{}\"{epistemic}", ts_in(cs.past, cs.now));
                     match exec(&self.nexus, &cmd, json!({"p": pid.to_string()})).await {
                         Ok(res) => res.as_array().and_then(|a| a.first()).map(|j| render_json(&cs, j, None)).unwrap_or_else(|| "err:empty".into()),
                         Err(e) => format!("err:find {e}"),
@@ -454,7 +498,7 @@ impl Inner {
                 Op::SlotProject if subject_id.is_empty() => "-".into(),
                 Op::SlotProject => {
                     let predicate = if cs.functional { "status" } else { "mentions" };
-                    let cmd = format!("FIND(?slot) WHERE {{ ?slot BELIEF SLOT (:svc, \"{predicate}\") }} FOR TIME \"{}\"{epistemic}", ts(cs.now));
+                    let cmd = format!("FIND(?slot) WHERE {{ ?slot BELIEF SLOT (:svc, \"{predicate}\") }} FOR TIME \"{}\"{epistemic}", ts_in(cs.past, cs.now));
                     match exec(&self.nexus, &cmd, json!({"svc": subject_id})).await {
                         Ok(res) => {
                             let projections = res.as_array().and_then(|a| a.first()).and_then(|s| s["candidate_projections"].as_array().cloned()).unwrap_or_default();
